@@ -52,3 +52,94 @@ Definition upper_take_amount (a : upper) (t : Z) : bres upper :=
   | UIncl x => if t >? x then BTakeCannotBeSatisfied else if in_dec (x - t) then BOk (UIncl (x - t)) else BPanic
   | UUnbounded => BOk UUnbounded
   end.
+
+(* ---- ResourceBounds (static_resource_movements/types.rs): the id-set part --------------------------------
+   mut_add, mut_take(Amount / NonFungibles), mut_handle_assertion on a GeneralResourceConstraint, as
+   written, each followed by normalize() (Model/C37_Constraint.v).  IndexSet insert/extend append new
+   elements at the end; difference / intersection keep the order of the left operand. *)
+Inductive gerr := GEOverflow | GEDuplicateId | GETakeCannotBeSatisfied | GENegativeAmount | GEAssertionCannotBeSatisfied.
+Inductive gres := GOk (g : general) | GErr (e : gerr) | GPanic.
+
+Definition minus_ids (a b : idset) : idset := filter (fun x => negb (mem x b)) a.     (* a.difference(b) *)
+Definition inter_ids (a b : idset) : idset := filter (fun x => mem x b) a.            (* a.intersection(b) *)
+Definition extend_ids (a b : idset) : idset := a ++ minus_ids b a.                    (* a.extend(b), b duplicate-free *)
+Definition disjoint_ids (a b : idset) : bool := forallb (fun x => negb (mem x a)) b.
+
+Definition bounds_add (this other : general) : gres :=
+  match lower_add_from (lb this) (lb other) with
+  | BOk l =>
+      match upper_add_from (ub this) (ub other) with
+      | BOk u =>
+          if negb (disjoint_ids (required this) (required other)) then GErr GEDuplicateId
+          else
+            let al := match allowed_ids this, allowed_ids other with
+                      | AnyIds, _ => AnyIds
+                      | _, AnyIds => AnyIds
+                      | Allowlist a, Allowlist b => Allowlist (extend_ids a b)
+                      end in
+            GOk (normalize (mkGeneral (required this ++ required other) l u al))
+      | _ => GErr GEOverflow
+      end
+  | _ => GErr GEOverflow
+  end.
+
+Definition bounds_take_amount (this : general) (t : Z) : gres :=
+  if t <? 0 then GErr GENegativeAmount
+  else match lower_take_amount (lb this) t with
+       | BOk l =>
+           match upper_take_amount (ub this) t with
+           | BOk u => GOk (normalize (mkGeneral (if 0 <? t then [] else required this) l u (allowed_ids this)))
+           | BTakeCannotBeSatisfied => GErr GETakeCannotBeSatisfied
+           | _ => GPanic
+           end
+       | _ => GPanic
+       end.
+
+Definition bounds_take_ids (this : general) (taken : idset) : gres :=
+  let t := dec_of_len taken in
+  match lower_take_amount (lb this) t with
+  | BOk l =>
+      match upper_take_amount (ub this) t with
+      | BOk u =>
+          let req := minus_ids (required this) taken in
+          let check_al :=
+            match allowed_ids this with
+            | Allowlist a => if negb (is_subset taken a) then None else Some (Allowlist (minus_ids a taken))
+            | AnyIds => Some AnyIds
+            end in
+          match check_al with
+          | None => GErr GETakeCannotBeSatisfied
+          | Some al =>
+              if dec_of_len req >? lower_eq l then GErr GETakeCannotBeSatisfied
+              else GOk (normalize (mkGeneral req l u al))
+          end
+      | BTakeCannotBeSatisfied => GErr GETakeCannotBeSatisfied
+      | _ => GPanic
+      end
+  | _ => GPanic
+  end.
+
+Definition bounds_assert (this a : general) : gres :=
+  let l := lower_constrain_to (lb this) (lb a) in
+  let u := upper_constrain_to (ub this) (ub a) in
+  let al_res :=
+    match allowed_ids a with
+    | Allowlist aal =>
+        if negb (is_subset (required this) aal) then None
+        else Some (match allowed_ids this with
+                   | AnyIds => Allowlist aal
+                   | Allowlist x => Allowlist (inter_ids x aal)
+                   end)
+    | AnyIds => Some (allowed_ids this)
+    end in
+  match al_res with
+  | None => GErr GEAssertionCannotBeSatisfied
+  | Some al =>
+      let req := extend_ids (required this) (required a) in
+      if lower_eq l >? upper_eq u then GErr GEAssertionCannotBeSatisfied
+      else match al with
+           | Allowlist x => if upper_eq u >? dec_of_len x then GErr GEAssertionCannotBeSatisfied
+                            else GOk (normalize (mkGeneral req l u al))
+           | AnyIds => GOk (normalize (mkGeneral req l u al))
+           end
+  end.
